@@ -12,7 +12,6 @@ import (
 	"crypto/ed25519"
 	"crypto/hpke"
 	"crypto/mlkem"
-	"encoding/hex"
 	"fmt"
 	"math/big"
 	"strings"
@@ -430,20 +429,26 @@ func buildSeeds() []*seed {
 		pubName := strings.Replace(name, "PrivateKey", "PublicKey", 1)
 		add(pubName, quick, prefix, func(l string) *tinkpb.KeyData { return publicOf(g(l)) }, true)
 	}
-	sym := func(name string, quick bool, prefix tinkpb.OutputPrefixType, g gen) { add(name, quick, prefix, g, false) }
+	sym := func(name string, quick bool, prefix tinkpb.OutputPrefixType, g gen) {
+		add(name, quick, prefix, g, false)
+	}
 
 	H := commonpb.HashType_SHA256
 	// AEAD
-	sym("AesGcmKey/16", true, pTINK, func(l string) *tinkpb.KeyData { return kd("AesGcmKey", mSYM, &gcmpb.AesGcmKey{KeyValue: kb("gcm16"+l, 16)}) })
-	sym("AesGcmKey/32", false, pRAW, func(l string) *tinkpb.KeyData { return kd("AesGcmKey", mSYM, &gcmpb.AesGcmKey{KeyValue: kb("gcm32"+l, 32)}) })
+	sym("AesGcmKey/16", true, pTINK, func(l string) *tinkpb.KeyData {
+		return kd("AesGcmKey", mSYM, &gcmpb.AesGcmKey{KeyValue: kb("gcm16"+l, 16)})
+	})
+	sym("AesGcmKey/32", true, pRAW, func(l string) *tinkpb.KeyData {
+		return kd("AesGcmKey", mSYM, &gcmpb.AesGcmKey{KeyValue: kb("gcm32"+l, 32)})
+	})
 	sym("AesGcmSivKey/32", true, pTINK, func(l string) *tinkpb.KeyData {
 		return kd("AesGcmSivKey", mSYM, &gcmsivpb.AesGcmSivKey{KeyValue: kb("gcmsiv32"+l, 32)})
 	})
-	sym("AesGcmSivKey/16", false, pCRUNCHY, func(l string) *tinkpb.KeyData {
+	sym("AesGcmSivKey/16", true, pCRUNCHY, func(l string) *tinkpb.KeyData {
 		return kd("AesGcmSivKey", mSYM, &gcmsivpb.AesGcmSivKey{KeyValue: kb("gcmsiv16"+l, 16)})
 	})
 	sym("AesCtrHmacAeadKey/16-16-32-SHA256-16", true, pTINK, func(l string) *tinkpb.KeyData { return ctrHmacKD(16, 16, 32, H, 16, l) })
-	sym("AesCtrHmacAeadKey/32-12-64-SHA512-32", false, pRAW, func(l string) *tinkpb.KeyData { return ctrHmacKD(32, 12, 64, commonpb.HashType_SHA512, 32, l) })
+	sym("AesCtrHmacAeadKey/32-12-64-SHA512-32", true, pRAW, func(l string) *tinkpb.KeyData { return ctrHmacKD(32, 12, 64, commonpb.HashType_SHA512, 32, l) })
 	sym("ChaCha20Poly1305Key", true, pTINK, func(l string) *tinkpb.KeyData {
 		return kd("ChaCha20Poly1305Key", mSYM, &chachapb.ChaCha20Poly1305Key{KeyValue: kb("chacha"+l, 32)})
 	})
@@ -453,30 +458,32 @@ func buildSeeds() []*seed {
 	sym("XAesGcmKey/salt12", true, pTINK, func(l string) *tinkpb.KeyData {
 		return kd("XAesGcmKey", mSYM, &xaesgcmpb.XAesGcmKey{Params: &xaesgcmpb.XAesGcmParams{SaltSize: 12}, KeyValue: kb("xaes"+l, 32)})
 	})
-	sym("XAesGcmKey/salt8", false, pRAW, func(l string) *tinkpb.KeyData {
+	sym("XAesGcmKey/salt8", true, pRAW, func(l string) *tinkpb.KeyData {
 		return kd("XAesGcmKey", mSYM, &xaesgcmpb.XAesGcmKey{Params: &xaesgcmpb.XAesGcmParams{SaltSize: 8}, KeyValue: kb("xaes8"+l, 32)})
 	})
 	// DAEAD
-	sym("AesSivKey/64", true, pTINK, func(l string) *tinkpb.KeyData { return kd("AesSivKey", mSYM, &sivpb.AesSivKey{KeyValue: kb("siv"+l, 64)}) })
+	sym("AesSivKey/64", true, pTINK, func(l string) *tinkpb.KeyData {
+		return kd("AesSivKey", mSYM, &sivpb.AesSivKey{KeyValue: kb("siv"+l, 64)})
+	})
 	// MAC
 	sym("HmacKey/SHA256-32-16", true, pTINK, func(l string) *tinkpb.KeyData { return hmacKD(H, 32, 16, "a"+l) })
-	sym("HmacKey/SHA512-64-64", false, pLEGACY, func(l string) *tinkpb.KeyData { return hmacKD(commonpb.HashType_SHA512, 64, 64, "b"+l) })
+	sym("HmacKey/SHA512-64-64", true, pLEGACY, func(l string) *tinkpb.KeyData { return hmacKD(commonpb.HashType_SHA512, 64, 64, "b"+l) })
 	sym("HmacKey/SHA1-16-10", true, pRAW, func(l string) *tinkpb.KeyData { return hmacKD(commonpb.HashType_SHA1, 16, 10, "c"+l) })
 	sym("AesCmacKey/32-16", true, pTINK, func(l string) *tinkpb.KeyData {
 		return kd("AesCmacKey", mSYM, &cmacpb.AesCmacKey{KeyValue: kb("cmac"+l, 32), Params: &cmacpb.AesCmacParams{TagSize: 16}})
 	})
-	sym("AesCmacKey/32-10", false, pLEGACY, func(l string) *tinkpb.KeyData {
+	sym("AesCmacKey/32-10", true, pLEGACY, func(l string) *tinkpb.KeyData {
 		return kd("AesCmacKey", mSYM, &cmacpb.AesCmacKey{KeyValue: kb("cmac10"+l, 32), Params: &cmacpb.AesCmacParams{TagSize: 10}})
 	})
 	// PRF
 	sym("HmacPrfKey/SHA256-32", true, pRAW, func(l string) *tinkpb.KeyData {
 		return kd("HmacPrfKey", mSYM, &hmacprfpb.HmacPrfKey{Params: &hmacprfpb.HmacPrfParams{Hash: H}, KeyValue: kb("hmacprf"+l, 32)})
 	})
-	sym("HmacPrfKey/SHA512-64", false, pRAW, func(l string) *tinkpb.KeyData {
+	sym("HmacPrfKey/SHA512-64", true, pRAW, func(l string) *tinkpb.KeyData {
 		return kd("HmacPrfKey", mSYM, &hmacprfpb.HmacPrfKey{Params: &hmacprfpb.HmacPrfParams{Hash: commonpb.HashType_SHA512}, KeyValue: kb("hmacprf64"+l, 64)})
 	})
 	sym("HkdfPrfKey/SHA256-32", true, pRAW, func(l string) *tinkpb.KeyData { return hkdfPrfKD(H, 32, nil, "a"+l) })
-	sym("HkdfPrfKey/SHA512-64-salt8", false, pRAW, func(l string) *tinkpb.KeyData { return hkdfPrfKD(commonpb.HashType_SHA512, 64, kb("salt", 8), "b"+l) })
+	sym("HkdfPrfKey/SHA512-64-salt8", true, pRAW, func(l string) *tinkpb.KeyData { return hkdfPrfKD(commonpb.HashType_SHA512, 64, kb("salt", 8), "b"+l) })
 	sym("AesCmacPrfKey/32", true, pRAW, func(l string) *tinkpb.KeyData {
 		return kd("AesCmacPrfKey", mSYM, &cmacprfpb.AesCmacPrfKey{KeyValue: kb("cmacprf"+l, 32)})
 	})
@@ -485,7 +492,7 @@ func buildSeeds() []*seed {
 		return kd("AesGcmHkdfStreamingKey", mSYM, &gcmhkdfpb.AesGcmHkdfStreamingKey{KeyValue: kb("gcmhkdf"+l, 16),
 			Params: &gcmhkdfpb.AesGcmHkdfStreamingParams{CiphertextSegmentSize: 4096, DerivedKeySize: 16, HkdfHashType: H}})
 	})
-	sym("AesGcmHkdfStreamingKey/64-32-SHA512", false, pRAW, func(l string) *tinkpb.KeyData {
+	sym("AesGcmHkdfStreamingKey/64-32-SHA512", true, pRAW, func(l string) *tinkpb.KeyData {
 		return kd("AesGcmHkdfStreamingKey", mSYM, &gcmhkdfpb.AesGcmHkdfStreamingKey{KeyValue: kb("gcmhkdf32"+l, 32),
 			Params: &gcmhkdfpb.AesGcmHkdfStreamingParams{CiphertextSegmentSize: 64, DerivedKeySize: 32, HkdfHashType: commonpb.HashType_SHA512}})
 	})
@@ -494,19 +501,19 @@ func buildSeeds() []*seed {
 			Params: &ctrhmacstreampb.AesCtrHmacStreamingParams{CiphertextSegmentSize: 4096, DerivedKeySize: 16, HkdfHashType: H,
 				HmacParams: &hmacpb.HmacParams{Hash: H, TagSize: 32}}})
 	})
-	sym("AesCtrHmacStreamingKey/128-32-SHA512-tag16", false, pRAW, func(l string) *tinkpb.KeyData {
+	sym("AesCtrHmacStreamingKey/128-32-SHA512-tag16", true, pRAW, func(l string) *tinkpb.KeyData {
 		return kd("AesCtrHmacStreamingKey", mSYM, &ctrhmacstreampb.AesCtrHmacStreamingKey{KeyValue: kb("ctrhmacstream32"+l, 32),
 			Params: &ctrhmacstreampb.AesCtrHmacStreamingParams{CiphertextSegmentSize: 128, DerivedKeySize: 32, HkdfHashType: commonpb.HashType_SHA512,
 				HmacParams: &hmacpb.HmacParams{Hash: commonpb.HashType_SHA512, TagSize: 16}}})
 	})
 	// signatures
 	pair("Ed25519PrivateKey", true, pTINK, ed25519Priv)
-	pair("Ed25519PrivateKey/legacy", false, pLEGACY, ed25519Priv)
+	pair("Ed25519PrivateKey/legacy", true, pLEGACY, ed25519Priv)
 	pair("EcdsaPrivateKey/P256-SHA256-DER", true, pTINK, func(l string) *tinkpb.KeyData { return ecdsaPriv("P256", H, ecdsapb.EcdsaSignatureEncoding_DER, l) })
 	pair("EcdsaPrivateKey/P384-SHA512-IEEE", true, pRAW, func(l string) *tinkpb.KeyData {
 		return ecdsaPriv("P384", commonpb.HashType_SHA512, ecdsapb.EcdsaSignatureEncoding_IEEE_P1363, l)
 	})
-	pair("EcdsaPrivateKey/P521-SHA512-DER", false, pCRUNCHY, func(l string) *tinkpb.KeyData {
+	pair("EcdsaPrivateKey/P521-SHA512-DER", true, pCRUNCHY, func(l string) *tinkpb.KeyData {
 		return ecdsaPriv("P521", commonpb.HashType_SHA512, ecdsapb.EcdsaSignatureEncoding_DER, l)
 	})
 	rsaG := func(bits int, f func(k rsaKey) *tinkpb.KeyData) gen {
@@ -525,7 +532,7 @@ func buildSeeds() []*seed {
 	pair("MlDsaPrivateKey/87", false, pRAW, func(l string) *tinkpb.KeyData { return mldsaPriv("87", l) })
 	pair("MlDsaPrivateKey/44", false, pTINK, func(l string) *tinkpb.KeyData { return mldsaPriv("44", l) })
 	pair("SlhDsaPrivateKey/SHA2-128f", true, pTINK, func(l string) *tinkpb.KeyData { return slhdsaPriv("SHA2-128f", l) })
-	pair("SlhDsaPrivateKey/SHAKE-128f", false, pRAW, func(l string) *tinkpb.KeyData { return slhdsaPriv("SHAKE-128f", l) })
+	pair("SlhDsaPrivateKey/SHAKE-128f", true, pRAW, func(l string) *tinkpb.KeyData { return slhdsaPriv("SHAKE-128f", l) })
 	pair("SlhDsaPrivateKey/SHA2-192f", false, pTINK, func(l string) *tinkpb.KeyData { return slhdsaPriv("SHA2-192f", l) })
 	pair("SlhDsaPrivateKey/SHAKE-256f", false, pRAW, func(l string) *tinkpb.KeyData { return slhdsaPriv("SHAKE-256f", l) })
 	comp := func(name string, quick bool, prefix tinkpb.OutputPrefixType, inst string, alg comppb.CompositeMlDsaClassicalAlgorithm) {
@@ -533,7 +540,7 @@ func buildSeeds() []*seed {
 		add("CompositeMlDsaPublicKey/"+name, quick, prefix, func(l string) *tinkpb.KeyData { _, p := compositeKDs(inst, alg, l); return p }, true)
 	}
 	comp("65-Ed25519", true, pTINK, "65", comppb.CompositeMlDsaClassicalAlgorithm_CLASSICAL_ALGORITHM_ED25519)
-	comp("65-P256", false, pRAW, "65", comppb.CompositeMlDsaClassicalAlgorithm_CLASSICAL_ALGORITHM_ECDSA_P256)
+	comp("65-P256", true, pRAW, "65", comppb.CompositeMlDsaClassicalAlgorithm_CLASSICAL_ALGORITHM_ECDSA_P256)
 	comp("87-P384", false, pTINK, "87", comppb.CompositeMlDsaClassicalAlgorithm_CLASSICAL_ALGORITHM_ECDSA_P384)
 	comp("87-P521", false, pRAW, "87", comppb.CompositeMlDsaClassicalAlgorithm_CLASSICAL_ALGORITHM_ECDSA_P521)
 	comp("65-RSA3072PSS", false, pTINK, "65", comppb.CompositeMlDsaClassicalAlgorithm_CLASSICAL_ALGORITHM_RSA3072_PSS)
@@ -547,13 +554,13 @@ func buildSeeds() []*seed {
 	pair("HpkePrivateKey/P256-SHA256-AES256GCM", true, pRAW, func(l string) *tinkpb.KeyData {
 		return hpkePriv(hpkepb.HpkeKem_DHKEM_P256_HKDF_SHA256, hpkepb.HpkeKdf_HKDF_SHA256, hpkepb.HpkeAead_AES_256_GCM, l)
 	})
-	pair("HpkePrivateKey/P384-SHA384-CHACHA", false, pCRUNCHY, func(l string) *tinkpb.KeyData {
+	pair("HpkePrivateKey/P384-SHA384-CHACHA", true, pCRUNCHY, func(l string) *tinkpb.KeyData {
 		return hpkePriv(hpkepb.HpkeKem_DHKEM_P384_HKDF_SHA384, hpkepb.HpkeKdf_HKDF_SHA384, hpkepb.HpkeAead_CHACHA20_POLY1305, l)
 	})
-	pair("HpkePrivateKey/P521-SHA512-AES256GCM", false, pTINK, func(l string) *tinkpb.KeyData {
+	pair("HpkePrivateKey/P521-SHA512-AES256GCM", true, pTINK, func(l string) *tinkpb.KeyData {
 		return hpkePriv(hpkepb.HpkeKem_DHKEM_P521_HKDF_SHA512, hpkepb.HpkeKdf_HKDF_SHA512, hpkepb.HpkeAead_AES_256_GCM, l)
 	})
-	pair("HpkePrivateKey/XWING-SHA256-AES256GCM", false, pTINK, func(l string) *tinkpb.KeyData {
+	pair("HpkePrivateKey/XWING-SHA256-AES256GCM", true, pTINK, func(l string) *tinkpb.KeyData {
 		return hpkePriv(hpkepb.HpkeKem_X_WING, hpkepb.HpkeKdf_HKDF_SHA256, hpkepb.HpkeAead_AES_256_GCM, l)
 	})
 	pair("HpkePrivateKey/MLKEM768-SHA256-AES128GCM", true, pRAW, func(l string) *tinkpb.KeyData {
@@ -565,25 +572,29 @@ func buildSeeds() []*seed {
 	pair("EciesAeadHkdfPrivateKey/P256-SHA256-UNCOMPRESSED-AES128GCM", true, pTINK, func(l string) *tinkpb.KeyData {
 		return eciesPriv("P256", H, commonpb.EcPointFormat_UNCOMPRESSED, aead.AES128GCMKeyTemplate(), nil, l)
 	})
-	pair("EciesAeadHkdfPrivateKey/P384-SHA384-COMPRESSED-AES128CTRHMAC", false, pRAW, func(l string) *tinkpb.KeyData {
+	pair("EciesAeadHkdfPrivateKey/P384-SHA384-COMPRESSED-AES128CTRHMAC", true, pRAW, func(l string) *tinkpb.KeyData {
 		return eciesPriv("P384", commonpb.HashType_SHA384, commonpb.EcPointFormat_COMPRESSED, aead.AES128CTRHMACSHA256KeyTemplate(), kb("eciessalt", 8), l)
 	})
-	pair("EciesAeadHkdfPrivateKey/P521-SHA512-LEGACYUNCOMPRESSED-AES256GCM", false, pCRUNCHY, func(l string) *tinkpb.KeyData {
+	pair("EciesAeadHkdfPrivateKey/P521-SHA512-LEGACYUNCOMPRESSED-AES256GCM", true, pCRUNCHY, func(l string) *tinkpb.KeyData {
 		return eciesPriv("P521", commonpb.HashType_SHA512, commonpb.EcPointFormat_DO_NOT_USE_CRUNCHY_UNCOMPRESSED, aead.AES256GCMKeyTemplate(), nil, l)
 	})
 	// (tink parses ECIES keys on CURVE25519 but has no primitive for them: not a seed)
-	pair("EciesAeadHkdfPrivateKey/P256-SHA256-COMPRESSED-AESSIV", false, pTINK, func(l string) *tinkpb.KeyData {
+	pair("EciesAeadHkdfPrivateKey/P256-SHA256-COMPRESSED-AESSIV", true, pTINK, func(l string) *tinkpb.KeyData {
 		return eciesPriv("P256", H, commonpb.EcPointFormat_COMPRESSED, daead.AESSIVKeyTemplate(), nil, l)
 	})
 	// JWT
 	sym("JwtHmacKey/HS256-32", true, pRAW, func(l string) *tinkpb.KeyData { return jwtHmacKD(jwthmacpb.JwtHmacAlgorithm_HS256, 32, "", "a"+l) })
-	sym("JwtHmacKey/HS384-48", false, pTINK, func(l string) *tinkpb.KeyData { return jwtHmacKD(jwthmacpb.JwtHmacAlgorithm_HS384, 48, "", "b"+l) })
-	sym("JwtHmacKey/HS512-64-kid", false, pRAW, func(l string) *tinkpb.KeyData { return jwtHmacKD(jwthmacpb.JwtHmacAlgorithm_HS512, 64, "my-kid", "c"+l) })
+	sym("JwtHmacKey/HS384-48", true, pTINK, func(l string) *tinkpb.KeyData { return jwtHmacKD(jwthmacpb.JwtHmacAlgorithm_HS384, 48, "", "b"+l) })
+	sym("JwtHmacKey/HS512-64-kid", true, pRAW, func(l string) *tinkpb.KeyData {
+		return jwtHmacKD(jwthmacpb.JwtHmacAlgorithm_HS512, 64, "my-kid", "c"+l)
+	})
 	pair("JwtEcdsaPrivateKey/ES256", true, pTINK, func(l string) *tinkpb.KeyData { return jwtEcdsaPriv(jwtecdsapb.JwtEcdsaAlgorithm_ES256, "", l) })
-	pair("JwtEcdsaPrivateKey/ES384-kid", false, pRAW, func(l string) *tinkpb.KeyData { return jwtEcdsaPriv(jwtecdsapb.JwtEcdsaAlgorithm_ES384, "kid-384", l) })
-	pair("JwtEcdsaPrivateKey/ES512", false, pRAW, func(l string) *tinkpb.KeyData { return jwtEcdsaPriv(jwtecdsapb.JwtEcdsaAlgorithm_ES512, "", l) })
+	pair("JwtEcdsaPrivateKey/ES384-kid", true, pRAW, func(l string) *tinkpb.KeyData { return jwtEcdsaPriv(jwtecdsapb.JwtEcdsaAlgorithm_ES384, "kid-384", l) })
+	pair("JwtEcdsaPrivateKey/ES512", true, pRAW, func(l string) *tinkpb.KeyData { return jwtEcdsaPriv(jwtecdsapb.JwtEcdsaAlgorithm_ES512, "", l) })
 	pair("JwtRsaSsaPkcs1PrivateKey/RS256-2048", true, pTINK, rsaG(2048, func(k rsaKey) *tinkpb.KeyData { return jwtPkcs1Priv(k, jwtpkcs1pb.JwtRsaSsaPkcs1Algorithm_RS256, "") }))
-	pair("JwtRsaSsaPkcs1PrivateKey/RS512-3072-kid", false, pRAW, rsaG(3072, func(k rsaKey) *tinkpb.KeyData { return jwtPkcs1Priv(k, jwtpkcs1pb.JwtRsaSsaPkcs1Algorithm_RS512, "rs-kid") }))
+	pair("JwtRsaSsaPkcs1PrivateKey/RS512-3072-kid", false, pRAW, rsaG(3072, func(k rsaKey) *tinkpb.KeyData {
+		return jwtPkcs1Priv(k, jwtpkcs1pb.JwtRsaSsaPkcs1Algorithm_RS512, "rs-kid")
+	}))
 	pair("JwtRsaSsaPssPrivateKey/PS256-2048", true, pRAW, rsaG(2048, func(k rsaKey) *tinkpb.KeyData { return jwtPssPriv(k, jwtpsspb.JwtRsaSsaPssAlgorithm_PS256, "") }))
 	pair("JwtRsaSsaPssPrivateKey/PS384-3072", false, pTINK, rsaG(3072, func(k rsaKey) *tinkpb.KeyData { return jwtPssPriv(k, jwtpsspb.JwtRsaSsaPssAlgorithm_PS384, "") }))
 	pair("JwtMlDsaPrivateKey/65", true, pTINK, func(l string) *tinkpb.KeyData { return jwtMldsaPriv("65", "", l) })
@@ -593,10 +604,10 @@ func buildSeeds() []*seed {
 	sym("PrfBasedDeriverKey/HKDFSHA256-AES128GCM", true, pTINK, func(l string) *tinkpb.KeyData {
 		return deriverKD(hkdfPrfKD(H, 32, nil, "der"+l), aead.AES128GCMKeyTemplate())
 	})
-	sym("PrfBasedDeriverKey/HKDFSHA512-HMACSHA256", false, pTINK, func(l string) *tinkpb.KeyData {
+	sym("PrfBasedDeriverKey/HKDFSHA512-HMACSHA256", true, pTINK, func(l string) *tinkpb.KeyData {
 		return deriverKD(hkdfPrfKD(commonpb.HashType_SHA512, 64, kb("dsalt", 4), "der2"+l), mac.HMACSHA256Tag128KeyTemplate())
 	})
-	sym("PrfBasedDeriverKey/HKDFSHA256-AES256GCMRAW", false, pRAW, func(l string) *tinkpb.KeyData {
+	sym("PrfBasedDeriverKey/HKDFSHA256-AES256GCMRAW", true, pRAW, func(l string) *tinkpb.KeyData {
 		return deriverKD(hkdfPrfKD(H, 32, nil, "der3"+l), aead.AES256GCMNoPrefixKeyTemplate())
 	})
 
@@ -624,5 +635,3 @@ func buildSeeds() []*seed {
 	out = append(out, m1, m2, m3)
 	return out
 }
-
-var _ = hex.EncodeToString
